@@ -1639,3 +1639,82 @@ Proof.
   - exfalso. unfold arith_axioms in Hin. pose proof (run2s_is_ref sebc o a b []) as H.
     rewrite E in H. destruct (run2s sebc o a b []) as [s|e']; cbn in H; [discriminate|exact Hin].
 Qed.
+
+(* ================================================================ HalmosBool(<value>) and the singletons *)
+Lemma hset_nonsingle_ok h r o : is_singleton r = false -> singles_ok h -> singles_ok (hset h r o).
+Proof. destruct r; cbn; intros E H; try discriminate; exact H. Qed.
+
+Lemma hb_init_ok simp r a h : singles_ok h -> singles_ok (hb_init simp true r a h).
+Proof.
+  intros H. unfold hb_init. destruct (is_singleton r) eqn:S; cbn [andb]; [exact H|].
+  destruct a; try exact H; apply hset_nonsingle_ok; assumption.
+Qed.
+
+(* full strength: whatever is passed to HalmosBool(..) - also a term that simplifies to true / false,
+   for which __new__ hands back the singleton - TRUE and FALSE keep con_val = True / False and
+   sym_val = None *)
+Lemma P_singletons_preserved simp a h : singles_ok h ->
+  singles_ok (snd (hb_ctor simp hb_init_guards_singletons a h)).
+Proof.
+  intros H. change hb_init_guards_singletons with true.
+  destruct a; cbn [hb_ctor snd]; repeat apply hb_init_ok; exact H.
+Qed.
+
+Lemma obj_den_true ev eb : obj_den ev eb obj_true = Some true.
+Proof. reflexivity. Qed.
+Lemma obj_den_false ev eb : obj_den ev eb obj_false = Some false.
+Proof. reflexivity. Qed.
+
+Lemma hget_hset_same h r o : hget (hset h r o) r = o.
+Proof. destruct r; reflexivity. Qed.
+
+(* one non-BitVec construction returns an object that denotes the value passed *)
+Lemma hb_plain_den ev eb simp a h :
+  (forall c, beval ev eb (simp c) = beval ev eb c) -> singles_ok h ->
+  (forall n x, a <> ABitVec n x) ->
+  let r := hb_new simp a in
+  obj_den ev eb (hget (hb_init simp true r a h) r) = arg_den ev eb h a.
+Proof.
+  intros Hs [HT HF] Hnb. cbv zeta. destruct a as [b|c|id|r|n x]; [| | | |exfalso; eapply Hnb; reflexivity].
+  - destruct b; cbn; [rewrite HT|rewrite HF]; reflexivity.
+  - cbn [hb_new arg_den]. pose proof (Hs c) as E.
+    unfold hb_init.
+    destruct (simp c) as [i|[|]| | | | | | |] eqn:S; cbn [is_singleton andb];
+      try (rewrite hget_hset_same; cbn [obj_den o_con o_sym]; f_equal; exact E).
+    + cbn [hget]. rewrite HT. cbn in E. rewrite <- E. reflexivity.
+    + cbn [hget]. rewrite HF. cbn in E. rewrite <- E. reflexivity.
+  - reflexivity.
+  - cbn [hb_new arg_den]. unfold hb_init. destruct (is_singleton r); reflexivity.
+Qed.
+
+Lemma P_bool_ctor_denotes ev eb simp a h :
+  (forall c, beval ev eb (simp c) = beval ev eb c) -> singles_ok h ->
+  obj_den ev eb (hget (snd (hb_ctor simp hb_init_guards_singletons a h))
+                      (fst (hb_ctor simp hb_init_guards_singletons a h))) = arg_den ev eb h a.
+Proof.
+  intros Hs H. change hb_init_guards_singletons with true.
+  destruct a as [b|c|id|r|n x];
+    try (apply (hb_plain_den ev eb simp _ h Hs H); intros; discriminate).
+  cbn [hb_ctor fst snd arg_den].
+  set (inner := match x with Cv v => ABool (negb (v =? 0)) | Sv t => ATerm (BNot (BEq t (TConst n 0))) end).
+  assert (Hi : forall n' x', inner <> ABitVec n' x') by (intros; unfold inner; destruct x; discriminate).
+  pose proof (hb_plain_den ev eb simp inner h Hs H Hi) as D. cbv zeta in D.
+  (* the outer __init__ with a HalmosBitVec value stores nothing *)
+  assert (E : forall r h', hb_init simp true r (ABitVec n x) h' = h').
+  { intros r h'. unfold hb_init. destruct (is_singleton r); reflexivity. }
+  rewrite E, D. unfold inner. destruct x as [v|t]; cbn [arg_den bv_den beval eval].
+  - reflexivity.
+  - unfold bvmod. rewrite Zmod_0_l. reflexivity.
+Qed.
+
+(* without the guard (the code before the repair) the singleton IS overwritten: the guard is what the
+   theorem rests on *)
+Lemma singleton_unguarded_corrupts :
+  let h0 := {| hT := obj_true; hF := obj_false; hN := {| o_con := None; o_sym := None |}; hO := {| o_con := None; o_sym := Some (BVar 1) |} |} in
+  singles_ok h0 /\
+  ~ singles_ok (snd (hb_ctor (fun _ => BConst true) false (ATerm (BVar 0)) h0)) /\
+  singles_ok (snd (hb_ctor (fun _ => BConst true) true (ATerm (BVar 0)) h0)).
+Proof.
+  cbv zeta. split; [split; reflexivity|]. split; [|split; reflexivity].
+  intros [H _]. cbn in H. discriminate H.
+Qed.
